@@ -441,7 +441,7 @@ def emptyGroupValue : AggKind → Value
 /-- stable insertion sort by the derived order (`values.sort()`) -/
 def insertSorted (v : Value) : List Value → List Value
   | [] => [v]
-  | x :: xs => if Value.cmp v x == .lt then v :: x :: xs else x :: insertSorted v xs
+  | x :: xs => if Value.cmp v x == .gt then x :: insertSorted v xs else v :: x :: xs
 def sortValues (xs : List Value) : List Value := xs.foldr insertSorted []
 
 /-- `(p * n as f64) as usize` for a finite non-negative product (saturating cast: NaN and negatives give 0) -/
